@@ -6,6 +6,7 @@ import SfxModel.DriverMath
 import SfxModel.DriverText
 import SfxModel.ExtOps
 import SfxModel.ExtBits
+import SfxModel.ExtSerde
 import SfxModel.ExtFrom
 /-
   Main.lean — line-protocol driver.  stdin: the Rust harness' output, one `request => answer` per line.
@@ -60,6 +61,7 @@ def modelOf (prof : Profile) (L : Layout) (op : String) (args : List String) : O
   else if ExtFrom.isOp op then ExtFrom.model prof L op args
   else if op == "wprog" then (DriverWrap.run L prof args).map (·.1)
   else if op == "fprog" then (ExtOps.run L prof args).map (·.1)
+  else if ExtSerde.isOp op then ExtSerde.model L op args   -- extension Serde
   else if codecOps.contains op then DriverCodec.model L op args
   else if isConvOp op then DriverConv.model prof L op args
   else if op.startsWith "t_" then DriverMath.model prof L op args
@@ -76,6 +78,7 @@ def specOf (prof : Profile) (L : Layout) (op : String) (args : List String) : Op
   else if ExtFrom.isOp op then ExtFrom.spec prof L op args
   else if op == "wprog" then (DriverWrap.run L prof args).map (·.2)
   else if op == "fprog" then (ExtOps.run L prof args).map (·.2)
+  else if ExtSerde.isOp op then ExtSerde.spec L op args   -- extension Serde
   else if codecOps.contains op then DriverCodec.spec L op args
   else if isConvOp op then DriverConv.spec prof L op args
   else match args.mapM String.toInt? with
@@ -89,6 +92,7 @@ def isSpecial (ans : String) : Bool := ans == "P" || ans.startsWith "E;" || ans.
 def argsInRange (L : Layout) (op : String) (args : List String) : Bool :=
   -- operands of typed arithmetic requests are bit patterns of the layout (the driver rejects others)
   if (wqOp op).isSome then args.all (fun a => match a.toInt? with | some i => decide (inRange L i) | none => false)
+  else if ExtSerde.isOp op then ExtSerde.argsOk L op args   -- extension Serde: a bit pattern, or a hex string
   else if ExtBits.handles op then (match args.mapM String.toInt? with | some ints => ExtBits.argsOk L op ints | none => false)   -- extension Bits: shift amounts are `u32` / `T` values
   else if op.startsWith "h_div_rem_from" || op.startsWith "t_" || isTextOp op || op == "wprog" || op == "fprog" || op == "decode" || op.startsWith "from_" || isConvOp op || ExtFrom.isOp op then true
   else args.all (fun a => match a.toInt? with | some i => decide (inRange L i) | none => true)
